@@ -29,7 +29,10 @@ PairsEq(p, q) == Len(p) = Len(q) /\ \A i \in 1..Len(p) : p[i][1] = q[i][1] /\ VE
 SeqEq(p, q)   == Len(p) = Len(q) /\ \A i \in 1..Len(p) : VEq(p[i], q[i])
 VEq(a, b) ==
     IF a[1] # b[1] THEN FALSE
-    ELSE CASE a[1] = 14 -> SubSeq(a, 1, 10) = SubSeq(b, 1, 10) /\ (a[11] = <<>> \/ b[11] = <<>> \/ a[11] = b[11])
+    ELSE CASE a[1] = 14 -> \/ SubSeq(a, 1, 10) = SubSeq(b, 1, 10) /\ (a[11] = <<>> \/ b[11] = <<>> \/ a[11] = b[11])
+                           \* a zoned date-time denotes <<instant, zone>>: a text whose numeric offset is not the zone's
+                           \* offset at that instant may come back rendered with the zone's own offset
+                           \/ a[11] # <<>> /\ a[11] = b[11] /\ InstantOf(a) = InstantOf(b)
            [] a[1] = 16 -> SeqEq(a[2], b[2])
            [] a[1] = 17 -> PairsEq(a[2], b[2])
            [] a[1] = 18 -> /\ VerEq(a[2], b[2])
